@@ -154,7 +154,10 @@ template<class P> static void run_case(P& p, const gcase& c, std::ostream& o) {
     // the same parse with verbosity flipped, through string_view_buffer: result must not depend on either (C07/C16)
     {
       ctpg::parse_options opt2 = opt; opt2.set_verbose(!in.verbose); std::stringstream err;
-      try { auto r = p.context_parse(log2, opt2, ctpg::buffers::string_view_buffer(in.bytes), err); r2 = r ? "VALUE " + r->get_value().s : "NONE"; }
+      bool dflt2 = !opt2.verbose && opt2.skip_whitespace && opt2.skip_newline;      // then the overload without options must behave the same
+      // the view is a proper sub-view of a larger text (followed by blanks and more input): nothing behind it may be looked at
+      std::string larger = in.bytes + " \n\ta b"; std::string_view sub(larger.data(), in.bytes.size());
+      try { auto r = dflt2 ? p.context_parse(log2, ctpg::buffers::string_view_buffer(sub), err) : p.context_parse(log2, opt2, ctpg::buffers::string_view_buffer(sub), err); r2 = r ? "VALUE " + r->get_value().s : "NONE"; }
       catch (const std::exception& e) { r2 = std::string("THROW ") + e.what(); }
       e2 = err.str();
     }
@@ -163,7 +166,8 @@ template<class P> static void run_case(P& p, const gcase& c, std::ostream& o) {
     // and without any stream, through string_buffer
     {
       ctpg::utils::no_stream ns;
-      try { auto r = p.context_parse(log3, opt, ctpg::buffers::string_buffer(std::string(in.bytes)), ns); r3 = r ? "VALUE " + r->get_value().s : "NONE"; }
+      bool dflt3 = !opt.verbose && opt.skip_whitespace && opt.skip_newline;         // then the overload without options and stream must behave the same
+      try { auto r = dflt3 ? p.context_parse(log3, ctpg::buffers::string_buffer(std::string(in.bytes))) : p.context_parse(log3, opt, ctpg::buffers::string_buffer(std::string(in.bytes)), ns); r3 = r ? "VALUE " + r->get_value().s : "NONE"; }
       catch (const std::exception& e) { r3 = std::string("THROW ") + e.what(); }
     }
     o << "RES3 " << r3 << "\n";
